@@ -24,7 +24,9 @@ Cfg == IF Scope = "quick" THEN {c \in CfgAll : c.header # "X-Real-Ip" /\ (~c.tru
        ELSE CfgAll
 
 \* header assignments: what the client put into the forwarding headers
-XFF == {"absent", "one", "list", "garbage", "garbage-then-ip"}
+\* ("zone": an IPv6 literal with a zone suffix, fe80::1%eth0 -- a zone is not part of an address; "zone-then-ip": one with free text
+\* as its zone, then a valid address)
+XFF == {"absent", "one", "list", "garbage", "garbage-then-ip", "zone", "zone-then-ip"}
 \* (the last two carry a value other than "https": "X-Forwarded-Proto: ftp" and "X-Url-Scheme: HTTPS" -- a trusted proxy's value is
 \* handed on as it is, an untrusted peer's value changes nothing)
 SchemeHdr == {"absent", "X-Forwarded-Proto", "X-Forwarded-Protocol", "X-Forwarded-Ssl", "X-Url-Scheme", "X-Forwarded-Proto=ftp", "X-Url-Scheme=HTTPS"}
@@ -44,6 +46,8 @@ FwdIP(c, h) == CASE h.xff = "absent" -> (IF c.validate THEN "remote" ELSE "empty
                  [] h.xff = "list" -> (IF c.validate THEN "198.51.100.7" ELSE "raw-list")
                  [] h.xff = "garbage" -> (IF c.validate THEN "remote" ELSE "raw-garbage")
                  [] h.xff = "garbage-then-ip" -> (IF c.validate THEN "198.51.100.8" ELSE "raw-garbage-then-ip")
+                 [] h.xff = "zone" -> (IF c.validate THEN "remote" ELSE "raw-zone")
+                 [] h.xff = "zone-then-ip" -> (IF c.validate THEN "198.51.100.8" ELSE "raw-zone-then-ip")
 \* (Out has no argument for other applications of the process: see the sibling application in the harness)
 Out(c, p, t, h) ==
   LET tr == Trusted(c, p)
